@@ -13,6 +13,16 @@ import runlib  # noqa
 import teaal.parse  # noqa
 import teaal.trans.hifiber  # noqa
 
+# warm the LIBRARIES the compiler uses (lazy imports inside sympy's solver and networkx cost seconds in every child otherwise);
+# no code of the compiler runs here
+from sympy import Symbol, solve  # noqa
+import networkx  # noqa
+
+solve(Symbol("zz1") - 2 * Symbol("zz2") - Symbol("zz3"), Symbol("zz1"))
+_g = networkx.DiGraph()
+_g.add_edge(1, 2)
+list(networkx.topological_sort(_g))
+
 
 def one(it):
     try:
